@@ -17,7 +17,7 @@ PROC = 'traffic_weaver.process.'
 
 
 def check_shift_scale(ctx, wm: WeaverModel):
-    ctx.rule('C14.1', 'shift_x/y store field + shift, scale_x/y store field * scale into the working and the reference field and write no other series field '
+    ctx.rule('C14.1', 'shift_x/y store field + shift, scale_x/y store field * scale into the working field and write no other working/original field (the reference twin is C08.2) '
                       '(canonical element-wise value)')
     table = {'shift_x': ('x', lambda f, a: f + a, 'shift'), 'shift_y': ('y', lambda f, a: f + a, 'shift'),
              'scale_x': ('x', lambda f, a: f * a, 'scale'), 'scale_y': ('y', lambda f, a: f * a, 'scale')}
@@ -32,14 +32,14 @@ def check_shift_scale(ctx, wm: WeaverModel):
             pname = next(iter(mf.params))
         arg = mf.params[pname]
         ls = last_stores(mf)
-        for f2 in (fld, 'reference_' + fld):
+        for f2 in (fld,):       # the reference twin is C08.2's obligation
             base = wm.fields[f2]
             want = Num(op(base.r, arg.r), base.length)
             got = ls[f2][-1].data['value'] if f2 in ls else None
             ok = isinstance(got, Num) and got.length is not None and got.r == want.r and got.length == want.length
             ctx.check(ok, 'C14.1', f"{name}: self.{f2} <- self.{f2} {'+' if 'shift' in name else '*'} {pname}", f"stored: {show(got, 200)}",
                       (ls[f2][-1].loc() if f2 in ls else mf.fi.loc()), mf.fi.qualname, f"{name}:{f2}")
-        others = [f for f in ls if f in ('x', 'y', 'reference_x', 'reference_y', 'original_x', 'original_y') and f not in (fld, 'reference_' + fld)]
+        others = [f for f in ls if f in ('x', 'y', 'original_x', 'original_y') and f != fld]
         ctx.check(not others, 'C14.1', f"{name}: no other series field is written", f"also writes {others}", mf.fi.loc(), mf.fi.qualname, f"{name}:frame")
 
 
@@ -132,11 +132,6 @@ def check_trend(ctx, wm: WeaverModel):
             root = strip_state(stores[0].data['base'])
             ctx.check(isinstance(root, Num) and root.r == y.r, 'C14.3', f"trend ({tag}): the working array starts as the values of y", show(root, 120), fi.loc(),
                       fi.qualname, f"trend:y0:{normalized}")
-    # freshness of the written array (C09.1 clause)
-    aa = alias(ctx)
-    s = aa.summ.get(PROC + 'trend')
-    ctx.check(s is not None and not s.mutates, 'C14.3', 'trend does not write into its parameters (works on a copy)', f"mutates {sorted(s.mutates) if s else None}",
-              fi.loc(), fi.qualname, 'trend:fresh')
     # linear_trend
     lfi = ctx.prog.func(PROC + 'linear_trend')
     a = S('a')
